@@ -156,6 +156,15 @@ pub fn corpus(tier: &str) -> Vec<Corpus> {
             }
         }
     }
+    // the vftable owner itself depends on the type that refers to its generated vftable struct
+    for (owner_field, ref_field) in [("pub r: R,", "pub v: FooVftable,"), ("pub r: [R; 2],", "pub v: FooVftable,"), ("pub r: R,", "pub v: *const FooVftable,"), ("pub r: R,", "pub v: [FooVftable; 2],")] {
+        for owner_first in [true, false] {
+            let foo = format!("pub type Foo {{\n    vftable {{\n        pub fn v(&self);\n    }},\n    {owner_field}\n}}\n");
+            let r = format!("pub type R {{\n    {ref_field}\n    pub pad: *const u8,\n}}\n");
+            let text = if owner_first { format!("{foo}{r}") } else { format!("{r}{foo}") };
+            out.push(Corpus { input: Input::single(text), features: vec!["owner_embeds_referrer".into()] });
+        }
+    }
     // a derived type with its own vftable block whose first base is placed by an explicit address
     for (addr, declared_first) in [(0, true), (0, false), (8, true), (8, false)] {
         let base = "pub type Base {\n    vftable {\n        pub fn v(&self);\n    },\n    pub a: *const u8,\n}\n";
